@@ -218,6 +218,36 @@ func TestC10(t *testing.T) {
 			}
 		}
 		r.Label("long-messages-across-buffer-refills")
+		// lists of every length around and above the decoder's pre-allocation bound, with zero timestamps
+		// (carried as null) at drawn positions
+		for _, ln := range []int{1, 2, 63, 64, 65, 66, 100, 129, 257, 1025} {
+			for rep := 0; rep < 4; rep++ {
+				l := make([]time.Time, ln)
+				zeros := 0
+				for i := range l {
+					if rs.next()%5 == 0 || (rep == 0 && i == ln-1) || (rep == 1 && i == 0) {
+						zeros++
+						continue
+					}
+					if rep%2 == 0 {
+						l[i] = time.Unix(int64(int32(rs.next())), 0)
+					} else {
+						l[i] = time.UnixMilli(minMsC10 + int64(rs.next()%uint64(maxMsC10-minMsC10)))
+					}
+				}
+				var v interface{} = l
+				if rep >= 2 {
+					v = &zoo.TimeCarrier{T: time.UnixMilli(5), L: l, T2: time.UnixMilli(6)}
+				}
+				stage, err, _ := roundTrip(v)
+				if err != nil {
+					directFail(t, "C10", map[string]interface{}{"list_len": ln, "zero_timestamps": zeros, "in_struct": rep >= 2}, "C10 list of %d timestamps, %d of them the zero timestamp: %s: %v", ln, zeros, stage, err)
+				}
+				r.EvalN(int64(ln))
+				r.NonTrivial(av.Hash(fmt.Sprint("zeros", ln, rep)))
+			}
+		}
+		r.Label("lists-with-zero-timestamps-up-to-1025")
 	}
 	rng := seedFor("C10")
 	n := 30000
